@@ -11,11 +11,12 @@ MaxExp == atoi(IOEnv.MC_EXPORTS)
 MaxProc == atoi(IOEnv.MC_PROCS)
 UseMenu == IF IOEnv.MC_MENU = "base" THEN {m \in Menu : m.base} ELSE Menu
 
-KindSeq == <<"SB20", "SB21", "MBI", "OTFAD", "IEE", "IEECTR", "BEE", "HAB", "HABRT", "HEX">>
+KindSeq == <<"SB20", "SB21", "MBI", "OTFAD", "IEE", "IEECTR", "BEE", "HAB", "HABRT", "HEX", "SB21KW">>
 KindNo(k) == CHOOSE i \in DOMAIN KindSeq : KindSeq[i] = k
 FieldNo(k, f) == CHOOSE i \in DOMAIN FieldSeq(k) : FieldSeq(k)[i] = f
-\* what the user supplies for a field: one value per (kind, field), used every time (the worst case for nonce reuse); SB2.0 and SB2.1 share
-UserVal(k, f) == (IF k = "SB20" THEN KindNo("SB21") ELSE KindNo(k)) * 8 + FieldNo(k, f)
+\* what the user supplies for a field: one value per (kind, field), used every time (the worst case for nonce reuse); SB2.0 and SB2.1
+\* (with or without keywrap statements) share
+UserVal(k, f) == (IF k \in {"SB20", "SB21KW"} THEN KindNo("SB21") ELSE KindNo(k)) * 8 + FieldNo(k, f)
 Step == 8                                                    \* numbers reserved per draw burst (> number of fields of any kind)
 Ideal(k, ex, F, at) == [f \in F |-> IF f \in ex THEN UserVal(k, f) ELSE at + FieldNo(k, f)]
 
